@@ -1,56 +1,13 @@
-(* C01_Own.v — tier 2, clause (f): who may be the owner.  Needs aintr = true. *)
+(* C01_Own.v — the full-strength statements about ownership as they were written down BEFORE the F33
+   repair (guarded by the idealisation `aintr s = true`), and the fact that the switch is a constant
+   of a run.  They are now PROVED, without the guard (C01_Own3.v: `*_holds`), from the invariants
+   own_inv (C01_Cls.v, C01_J1-J4.v, C01_Own2.v) and live_inv / wit_inv (C01_Live.v, C01_K1-K2.v). *)
 From Coq Require Import ZArith List Bool Arith Lia.
 From PV Require Import Base.U64 C01.C01_Model C01.C01_Tac C01.C01_Excl C01.C01_Inv2 C01.C01_I2.
 Import ListNotations.
 Local Open Scope Z_scope.
 
-(* classes of program points with respect to mutex m *)
-Definition kmust := must.
-Definition knot (p : pc_t) (m : mid) : bool :=
-  match p with
-  | PY1 (YLock c _) | PY2 (YLock c _) | PYw (YLock c _) | PY3 (YLock c _) => on c m
-  | PL0 c | PLcas1 c _ | PLspl c | PLcas2 c | PLexp c | PLto c | PLenq c => on c m
-  | PT0 m' _ | PUint m' _ | PUrel m' _ | PUunspl m' => Nat.eqb m' m
-  | _ => false
-  end.
 Definition kz1 := pcwait.
-Definition kz2 (p : pc_t) (m : mid) : bool := match p with PS1 (SLock c) => on c m | _ => false end.
-Definition kz3 (p : pc_t) (m : mid) : option Z := match p with PS2 (SLock c) e => if on c m then Some e else None | _ => None end.
-Definition kz4 (p : pc_t) (m : mid) : bool := match p with PLchk c => on c m | _ => false end.
-Definition kfree (p : pc_t) (m : mid) : bool :=
-  negb (kmust p m || knot p m || kz1 p m || kz2 p m || (match kz3 p m with Some _ => true | None => false end) || kz4 p m).
-
-Definition handoff_pending (s : state) (m : mid) (t : tid) : Prop :=
-  match tlock (th s t) with Some (HT u) => pc (th s u) = PUint m t | _ => False end.
-
-Record inv3_at (s : state) (t : tid) (m : mid) : Prop := mkInv3 {
-  i3_free : kfree (pc (th s t)) m = true -> (owner (mx s m) = Some t <-> (cnt (th s t) m > 0)%nat);
-  i3_must : kmust (pc (th s t)) m = true -> owner (mx s m) = Some t /\ cnt (th s t) m = O;
-  i3_not : knot (pc (th s t)) m = true -> owner (mx s m) <> Some t /\ cnt (th s t) m = O;
-  i3_z1 : kz1 (pc (th s t)) m = true ->
-          cnt (th s t) m = O /\ (owner (mx s m) = Some t -> In t (wqm (mx s m)) \/ err (th s t) = -1);
-  i3_z2 : kz2 (pc (th s t)) m = true -> cnt (th s t) m = O /\ (owner (mx s m) = Some t -> err (th s t) = -1);
-  i3_z3 : forall e, kz3 (pc (th s t)) m = Some e -> cnt (th s t) m = O /\ (owner (mx s m) = Some t -> e = -1);
-  i3_z4 : kz4 (pc (th s t)) m = true -> cnt (th s t) m = O;
-  i3_a : owner (mx s m) = Some t -> In t (wqm (mx s m)) -> handoff_pending s m t;
-  i3_rc : recursive (mx s m) = true -> owner (mx s m) = Some t -> rcnt (mx s m) = Z.of_nat (cnt (th s t) m);
-  i3_rc0 : owner (mx s m) = None \/ recursive (mx s m) = false -> rcnt (mx s m) = 0
-}.
-Definition inv3 (s : state) : Prop := forall t m, inv3_at s t m.
-
-Lemma inv3_init s : is_init s -> inv3 s.
-Proof.
-  intros (nw & re & ct & rc & v & ai & ->) t m.
-  constructor; cbn; intros; try congruence; try lia; try tauto; try discriminate.
-  split; intros; [congruence|lia].
-Qed.
-
-Lemma pcwait_classes p m : pcwait p m = true ->
-  kfree p m = false /\ kmust p m = false /\ knot p m = false /\ kz2 p m = false /\ kz3 p m = None /\ kz4 p m = false.
-Proof.
-  unfold kfree, kmust, kz1, kz2, kz3, kz4, knot, must, pcwait.
-  destruct p; try discriminate; try (destruct k; try discriminate); intros H; rewrite ?H; cbn; auto 10.
-Qed.
 
 (* the idealisation switch is a constant of the run *)
 Lemma a_setT s t r : aintr (setT s t r) = aintr s. Proof. reflexivity. Qed.
@@ -87,10 +44,7 @@ Proof.
   - split_ifs Hs; try discriminate; injection Hs as <-; reflexivity.
 Qed.
 
-(* to do: the preservation of inv3 under aintr = true; see notes/C01.md *)
-Definition inv3_preserved : Prop :=
-  forall s l s', inv1 s -> inv2 s -> aintr s = true -> inv3 s -> step s l = Some s' -> inv3 s'.
-(* the full-strength statements that inv3 yields (kept as Definitions: not proved yet) *)
+(* the full-strength statements (proved in C01_Own3.v, even without the `aintr s = true` guard) *)
 Definition lock_result_iff_owner : Prop :=
   forall s, reachable s -> aintr s = true -> forall t m r e,
     pc (th s t) = PRet (RLock m) r e ->
